@@ -102,7 +102,7 @@ pub fn payloads() -> Vec<(String, Vec<u8>, bool)> {
 
 const ENDINGS: [&str; 5] = ["finish", "reset", "stop_recv", "abandon", "close_conn"];
 
-const STREAM_ATTACKS: [&str; 11] = ["hold_many_bidi", "uni_with_data", "uni_reset", "uni_many", "datagram_0", "datagram_1", "datagram_1200", "close_abrupt", "close_with_error", "drop_endpoint", "stop_and_reset_everything"];
+const STREAM_ATTACKS: [&str; 15] = ["hold_many_bidi", "uni_with_data", "uni_reset", "uni_many", "uni_held_0", "uni_held_1", "uni_held_1024", "uni_held_20000", "datagram_0", "datagram_1", "datagram_1200", "close_abrupt", "close_with_error", "drop_endpoint", "stop_and_reset_everything"];
 
 fn cfg() -> anemo::Config {
     let mut c = anemo::Config::default();
@@ -273,6 +273,17 @@ async fn scenario(sim: Arc<Sim>, unit: Value) -> Obs {
                     }
                 }
             }
+            a if a.starts_with("uni_held_") => {
+                // a unidirectional stream that carries some bytes and is then neither finished
+                // nor reset for the rest of the scenario
+                let n: usize = a["uni_held_".len()..].parse().unwrap();
+                if let Ok(Ok(mut s)) = tokio::time::timeout(ms(100), conn.open_uni()).await {
+                    if n > 0 {
+                        let _ = tokio::time::timeout(ms(200), s.write_all(&vec![0x55; n])).await;
+                    }
+                    held_uni.push(s);
+                }
+            }
             "datagram_0" => drop(conn.send_datagram(bytes::Bytes::new())),
             "datagram_1" => drop(conn.send_datagram(bytes::Bytes::from_static(b"x"))),
             "datagram_1200" => {
@@ -415,7 +426,7 @@ impl Check for C06 {
         CheckMeta {
             property: "C06",
             level: "fault_enumeration",
-            rule: "an admitted adversary (raw QUIC endpoint, valid identity) x byte string on a request stream (valid, cut at 15 offsets, garbage, wrong tag/version/reserved, 10 hostile length prefixes, bincode with absurd string/map sizes, invalid UTF-8, trailing bytes, response-shaped, 18 well-formed-but-unusual requests: timeout header values, empty/64 KiB route, 300 headers, duplicate keys, 1 MiB body) x ending {finish, reset, stop, abandon, connection close} x optional mid-frame split x placement {before, during, after} an honest peer's in-flight RPC; stream-level attacks (hold limit+3 streams, uni streams, datagrams 0/1/1200 B, abrupt closes, endpoint drop, stop+reset storms); each followed by a well-formed RPC on a sibling stream, honest RPCs, a new honest connection; plus the decoders on the same byte strings under an address-space cap; distinct = distinct (attack kind, connection state)".into(),
+            rule: "an admitted adversary (raw QUIC endpoint, valid identity) x byte string on a request stream (valid, cut at 15 offsets, garbage, wrong tag/version/reserved, 10 hostile length prefixes, bincode with absurd string/map sizes, invalid UTF-8, trailing bytes, response-shaped, 18 well-formed-but-unusual requests: timeout header values, empty/64 KiB route, 300 headers, duplicate keys, 1 MiB body) x ending {finish, reset, stop, abandon, connection close} x optional mid-frame split x placement {before, during, after} an honest peer's in-flight RPC; stream-level attacks (hold limit+3 streams, uni streams finished / reset / 150 at once / held open after 0, 1, 1024, 20000 bytes, datagrams 0/1/1200 B, abrupt closes, endpoint drop, stop+reset storms); each followed by a well-formed RPC on a sibling stream, honest RPCs, a new honest connection; plus the decoders on the same byte strings under an address-space cap; distinct = distinct (attack kind, connection state)".into(),
             assumptions: vec!["one adversary connection at a time; bidi stream limit 6".into()],
             exhaustive: true,
         }
